@@ -73,6 +73,12 @@ Definition step (m:mob) (o:op) : mob :=
   end.
 Definition run (m:mob) (l:list op) : mob := fold_left step l m.
 
+(** MobilizedBody::lockByDefault(level) is a topological setting: every State created from the System afterwards (the default
+    State, realized through Model) starts locked at that level; the recorded lock values are the default q (position level),
+    the default u = 0 (velocity level) and 0 (acceleration level) -- realizeSubsystemModelImpl / setDefaultInstanceValues.
+    From there on the State's own lock / lockAt / unlock apply as usual. *)
+Definition mob_default (dl:level) (q0:T) (mo:option motion) (on:bool) : mob := mkMob dl q0 (n0 O) q0 (n0 O) mo on.
+
 (** the value getLockValueAsVector returns: q if locked at Position, the recorded u / udot otherwise *)
 Definition lock_value (m:mob) : option T :=
   match lk m with Position => Some (lockedQ m) | Velocity | Acceleration => Some (lockedU m) | NoLevel => None end.
